@@ -43,7 +43,9 @@ def rand_ub_op(rng):
             if abs(np.linalg.det(m)) > 0.3:
                 return ("ub", m)
     lat = rng.choice([(4.0,), (4.0, 5.0), (4.0, 5.0, 6.0), (4.1, 5.2, 6.3, 100.0), (4.1, 5.2, 6.3, 80, 95, 100), ("Hexagonal", 3.0, 5.0), ("Rhombohedral", 4.0, 75.0)])
-    how = rng.choice(["set_u", "set_u", "calc_ub", "calc_ub1", "miscut", "refine"])
+    # "keep": the lattice alone is replaced and U is kept (UB follows through set_lattice); "refine_lat" / "fit_lat": the refinement entry
+    # points told to apply the lattice only — every route by which UB changes without U being assigned
+    how = rng.choice(["set_u", "set_u", "calc_ub", "calc_ub1", "miscut", "refine", "keep", "keep", "refine_lat", "fit_lat"])
     return ("lat", lat, [rng.uniform(-1, 1) for _ in range(3)], how)
 
 
@@ -90,9 +92,21 @@ def apply_impl(ub, op):
         how = op[3] if len(op) > 3 else "set_u"
         U0 = rot_from_rotvec(op[2])
         with quiet():
+            if how in ("refine_lat", "fit_lat") and ub.crystal is not None and ub.U is not None and ub.UB is not None:
+                if how == "refine_lat":
+                    ub.refine_ub((1, 0, 1), Position(0, 35, 5, 12, 40, 20), 1.0, True, False)
+                else:
+                    while ub.get_number_reflections():
+                        ub.del_reflection(1)
+                    for i, h in enumerate(((1, 0, 1), (0, 1, 1), (1, 1, 0), (1, -1, 2))):
+                        ub.add_reflection(h, Position(3 + i, 30 + 4 * i, 5 + 2 * i, 12 - i, 40 + 7 * i, 20 - 9 * i), 12.0 + i, None)
+                    ub.fit_ub([1, 2, 3, 4], True, False)
+                return
             ub.set_lattice("x", *op[1])
             B = np.asarray(ub.crystal.B, float)
-            if how == "set_u" or ub.U is None and how in ("miscut", "refine"):
+            if how in ("keep", "refine_lat", "fit_lat") and ub.U is not None:
+                return
+            if how in ("set_u", "keep", "refine_lat", "fit_lat") or ub.U is None and how in ("miscut", "refine"):
                 ub.set_u(U0)
             elif how in ("calc_ub", "calc_ub1"):
                 while ub.get_number_orientations():
